@@ -65,6 +65,15 @@ c.ensures('requires-exactly-the-leaves-of-required', _aj_requirements, props=['C
 c.ensures('other-jobs-keep-their-requirements', _aj_others, props=['C19'])
 c.ensures('registered-in-the-scheduler', _aj_sched, props=['C19'])
 c.ensures('idle-unmarked-unnumbered', _aj_state, props=['C19', 'C14'])
+c.ensures('frame[elems]', lambda c: (lambda s: ForAll([s], Implies(
+    And(c.pre.alive(s), Or(c.a.scheduler == NONE, s != c.pre.f('jobs', c.a.scheduler))), c.cur.elems(s) == c.pre.elems(s)),
+    patterns=[c.cur.elems(s)]))(q()))
+c.ensures('frame[lists]', lambda c: (lambda s: ForAll([s], Implies(c.pre.alive(s), And(
+    c.cur.llen(s) == c.pre.llen(s), Select(c.cur.H('$lat'), s) == Select(c.pre.H('$lat'), s))),
+    patterns=[c.cur.llen(s), Select(c.cur.H('$lat'), s)]))(q()))
+c.ensures('frame[fields-of-other-objects]', lambda c: And([unchanged_field(c.pre, c.cur, f, lambda o: o == c.a.self)
+                                                          for f in JOB_FIELDS if not f.startswith('$')]))
+c.ensures('frame[roles]', lambda c: roles_frame(c.pre, c.cur))
 
 
 # ---------------------------------------------------------------- PureScheduler.__init__
@@ -100,4 +109,77 @@ def _ps_state(c):
 c.ensures('members-are-exactly-the-jobs-given', _ps_members, props=['C19'])
 c.ensures('parameters-recorded-and-no-failure-yet', _ps_state, props=['C19', 'C04'])
 c.ensures('frame[elems]', lambda c: old_sets_unchanged(c.pre, c.cur))
+c.ensures('frame[lists]', lambda c: (lambda s: ForAll([s], Implies(c.pre.alive(s), And(
+    c.cur.llen(s) == c.pre.llen(s), Select(c.cur.H('$lat'), s) == Select(c.pre.H('$lat'), s))),
+    patterns=[c.cur.llen(s), Select(c.cur.H('$lat'), s)]))(q()))
+PS_FIELDS = ['jobs', 'jobs_window', 'timeout', 'shutdown_timeout', 'watch', 'verbose', '_failed_critical', '_failed_timeout',
+             '_expiration', '_did_shutdown']
+c.ensures('frame[fields-of-other-objects]', lambda c: And([unchanged_field(c.pre, c.cur, f, lambda o: o == c.a.self)
+                                                          for f in PS_FIELDS]))
+c.ensures('frame[roles]', lambda c: roles_frame(c.pre, c.cur))
 c.post_hints = lambda c: flat_view_lemmas(c, c.cur) if c.mode == 'prove' else []
+
+
+# ---------------------------------------------------------------- Scheduler.__init__
+# (self, *jobs_or_sequences, jobs_window, timeout, shutdown_timeout, watch, verbose, **kwds): the positional and
+# scheduler keywords go to PureScheduler.__init__, **kwds to AbstractJob.__init__
+KW = [('forever', 'bool'), ('critical', 'bool'), ('label', 'ref'), ('required', 'ref'), ('scheduler', 'ref')]
+KWDEF = {'forever': z3.BoolVal(False), 'critical': z3.BoolVal(True), 'label': NONE, 'required': NONE, 'scheduler': NONE}
+
+
+def _kw(c, key):
+    """value the job constructor receives for `key`"""
+    return If(getattr(c.a, 'kwds__has_' + key), getattr(c.a, 'kwds__' + key), KWDEF[key])
+
+
+c = contract('Scheduler.__init__', FSCH).param('self').param('jobs_or_sequences', 'varargs') \
+    .param('jobs_window', 'kw:ref', None).param('timeout', 'kw:ref', None).param('shutdown_timeout', 'kw:ref', 1) \
+    .param('watch', 'kw:ref', None).param('verbose', 'kw:bool', False).param('kwds', 'kwargs').returns('none')
+c.kwargs_keys = {'kwds': KW}
+c.for_props('C19')
+c.ghost_params = {'ARG': (new_ARG, NO_ARG)}
+c.ghost_pass = {'AbstractJob.__init__': lambda cc: {'ARG': cc.ghost['ARG']}}
+c.requires('self-is-a-nestable-scheduler', lambda c: And(isa['Scheduler'](c.a.self), c.pre.alive(c.a.self)))
+c.requires('arguments-are-jobs-sequences-or-None', lambda c: flatten_args_ok(c.pre, c.a.jobs_or_sequences))
+c.requires('argument-structure-of-required', lambda c: And(arg_closure(c.pre, c.ghost['ARG']),
+                                                            argok(c.pre, _kw(c, 'required'), c.ghost['ARG'])))
+c.requires('scheduler-is-None-or-a-scheduler', lambda c: Or(
+    _kw(c, 'scheduler') == NONE, And(is_sched(_kw(c, 'scheduler')), c.pre.alive(_kw(c, 'scheduler')),
+                                     _kw(c, 'scheduler') != c.a.self)))
+c.modifies(*(JOB_FIELDS + ['jobs', 'jobs_window', 'timeout', 'shutdown_timeout', 'watch', 'verbose', '_failed_critical',
+                           '_failed_timeout', '_expiration', '_did_shutdown', '$elems', '$alive', '$llen', '$lat',
+                           '$setowner', '$setrole']))
+
+
+def _sch_members(c):
+    y = q()
+    me = c.a.self
+    return ForAll([y], member(c.cur, me, y) == contributed(c.pre, c.a.jobs_or_sequences, y),
+                  patterns=[member(c.cur, me, y)])
+
+
+def _sch_requirements(c):
+    lv = leaves_fn(c, c.pre)
+    x = q()
+    me = c.a.self
+    return ForAll([x], E(c.cur, me, x) == And(Select(lv(_kw(c, 'required')), x), x != me), patterns=[E(c.cur, me, x)])
+
+
+def _sch_registered(c):
+    S = _kw(c, 'scheduler')
+    y = q()
+    return Implies(S != NONE, ForAll([y], member(c.cur, S, y) == Or(member(c.pre, S, y), y == c.a.self),
+                                     patterns=[member(c.cur, S, y)]))
+
+
+def _sch_flags(c):
+    me, cur = c.a.self, c.cur
+    return And(cur.f('forever', me) == _kw(c, 'forever'), cur.f('critical', me) == _kw(c, 'critical'),
+               cur.f('label', me) == _kw(c, 'label'), cur.f('jobs_window', me) == c.a.jobs_window,
+               cur.f('timeout', me) == c.a.timeout, cur.f('_task', me) == NONE, Not(cur.f('_running', me)))
+
+
+c.ensures('members-are-exactly-the-jobs-given', _sch_members, props=['C19'])
+c.ensures('requires-exactly-the-leaves-of-required', _sch_requirements, props=['C19'])
+c.ensures('registered-in-the-scheduler', _sch_registered, props=['C19'])
+c.ensures('flags-and-parameters-recorded', _sch_flags, props=['C19'])
